@@ -252,8 +252,8 @@ def distinguish(pairs, refmatch, limit=40):
             chars = set((ms + rs).decode('utf-8', 'replace'))
         except Exception:
             chars = set()
-        alpha = [c for c in sorted(chars) if c.isalnum() or c in ' \t\n,;:-_=+'][:8] + [' ', 'a', 'A', '\t', '\n', 'é', '0', ',']
-        alpha = list(dict.fromkeys(alpha))[:12]
+        alpha = [c for c in sorted(chars) if c.isalnum() or c in ' \t\n,;:-_=+'][:8] + [c.swapcase() for c in sorted(chars) if c.isalpha()][:4] + [' ', 'a', 'A', '\t', '\n', 'é', '0', ',']
+        alpha = list(dict.fromkeys(alpha))[:14]
         words = [''] + [''.join(t) for k in (1, 2, 3) for t in itertools.product(alpha, repeat=k)]
         reqs = ['P %d %d %s' % (1 if mu else 0, 1 if mi else 0, ms.hex() or '-')] + ['W ' + (w.encode('utf-8').hex() or '-') for w in words]
         reqs += ['P %d %d %s' % (1 if ru else 0, 1 if ri else 0, rs.hex() or '-')] + ['W ' + (w.encode('utf-8').hex() or '-') for w in words]
